@@ -321,6 +321,7 @@ def run_property(prop, tier="quick", seed=0, explain=None):
                 "/verif/driver fact extractor", "/verif/engine rule engine"],
             "configs_analysed": [c for c in ctx.configs() if c in ctx._facts],
             "functions_analysed": len(ctx.analysed["functions"]),
+            "paths_interpreted": ctx.analysed.get("paths", 0),        # rounds / paths walked by the abstract interpreters (R-STEP)
             "functions_sample": sorted(ctx.analysed["functions"])[:40],
             "rules": ctx.rule_docs,
             "per_rule": {r: {"obligations": v[0], "hold": v[1]} for r, v in per_rule.items()},
